@@ -56,6 +56,10 @@ type Spec struct {
 	// prefix function) - the renderer-level value is the one in force, for every id the extension writes; the table align
 	// method likewise (constructor: attribute, renderer option: style).
 	Rich3 bool
+	// Rich4 (with Rich): an explicitly given but EMPTY footnote id prefix together with a prefix function (the static
+	// prefix, being set, is in force: ids carry no prefix), and Typographer with empty (non-nil) replacements, which
+	// means "replace by nothing".
+	Rich4 bool
 	// Direct: renderer flags are given to html.NewRenderer(...) itself, inside a caller-built renderer.NewRenderer, instead
 	// of goldmark.WithRendererOptions (core only: extension renderers receive options by name, not through this route).
 	Direct bool
@@ -127,6 +131,9 @@ func (s Spec) Name() string {
 	if s.Rich3 {
 		b.WriteString(",rich3")
 	}
+	if s.Rich4 {
+		b.WriteString(",rich4")
+	}
 	if s.Direct {
 		b.WriteString(",direct")
 	}
@@ -154,6 +161,9 @@ func (s Spec) FootnoteIDPrefix() string {
 	if s.Rich && s.Rich3 {
 		return "page7-"
 	}
+	if s.Rich && s.Rich4 {
+		return ""
+	}
 	if s.Rich && s.FootnotePfx == "" {
 		return "doc-1-"
 	}
@@ -161,6 +171,10 @@ func (s Spec) FootnoteIDPrefix() string {
 }
 
 func (s Spec) footnote() goldmark.Extender {
+	if s.Rich && s.Rich4 {
+		return extension.NewFootnote(extension.WithFootnoteIDPrefix(""), extension.WithFootnoteIDPrefixFunction(func(ast.Node) []byte { return []byte("post42-") }),
+			extension.WithFootnoteLinkTitle("note ^^"), extension.WithFootnoteBacklinkClass("fn-back"))
+	}
 	if s.Rich && s.Rich3 {
 		return extension.NewFootnote(extension.WithFootnoteIDPrefix("ext-"), extension.WithFootnoteLinkTitle("note ^^ (%%)"),
 			extension.WithFootnoteBacklinkTitle("back to ^^ (%%)"), extension.WithFootnoteLinkClass("fn-link"), extension.WithFootnoteBacklinkClass("fn-back"))
@@ -413,6 +427,8 @@ func RichSpecs() []Spec {
 	// options that arrive both through the extension's constructor and as renderer options
 	out = append(out, Spec{Ext: ExtFootnote, Rich: true, Rich3: true}, Spec{Ext: ExtAll, Rich: true, Rich3: true, XHTML: true, AutoHeadingID: true},
 		Spec{Ext: ExtGFM, Rich: true, Rich3: true})
+	// an empty static prefix next to a prefix function
+	out = append(out, Spec{Ext: ExtFootnote, Rich: true, Rich4: true}, Spec{Ext: ExtAll, Rich: true, Rich4: true, XHTML: true})
 	return out
 }
 
@@ -510,6 +526,8 @@ func Parse(name string) (Spec, bool) {
 			s.Rich2 = true
 		case p == "rich3":
 			s.Rich3 = true
+		case p == "rich4":
+			s.Rich4 = true
 		case p == "direct":
 			s.Direct = true
 		default:
